@@ -109,7 +109,15 @@ def r2(ctx):
                 ctx.bad(f'{ci.name}.__set__', 'override', f'override can store an unvalidated value: {why}', f.loc())
         v = ci.methods.get('_validate')
         if v is None:
-            ctx.bad(f'{ci.name}._validate', 'missing', 'descriptor without its own _validate', ci.path)
+            # an intermediate base (subclasses exist, and no region class uses it as the descriptor of a parameter) keeps
+            # the abstract _validate of the base; a concrete descriptor needs its own
+            used = any(m.descriptor_kind(rc, p_) == ci.name for rc in m.subclasses('Region') for p_ in m.params_of(rc))
+            has_sub = any(c2 is not ci and ci in c2.mro for c2 in m.subclasses('RegionAttribute'))
+            inherited = next((c2 for c2 in ci.mro[1:] if '_validate' in c2.methods and c2.name != 'RegionAttribute'), None)
+            if (has_sub and not used) or inherited is not None:
+                ctx.ok(f'{ci.name}._validate', 'intermediate base, or inherits a concrete _validate')
+            else:
+                ctx.bad(f'{ci.name}._validate', 'missing', 'descriptor without its own _validate', ci.path)
             continue
         ev_ = evaluator(ctx)
         val_ = Obj('value', {}, 'value')
@@ -740,6 +748,43 @@ def r8(ctx):
     ctx.bad('RegionMask.__init__', 'shape-guard', f'mask/box shape agreement not enforced: {rs}', init.loc())
 
 
+QUANTITY_DESCRIPTORS = ('ScalarAngle', 'PositiveScalarAngle')      # the descriptor classes whose values are Quantities
+
+
+def r9(ctx):
+    """a rejected assignment leaves the object as it was — also an augmented one: `region.radius *= -1` first updates the
+    object handed out by the descriptor in place and then assigns it. If __get__ hands out the stored Quantity itself, the
+    stored value is already -3 deg when the validator rejects the assignment. Quantity-valued attributes must therefore be
+    handed out and taken in by value (a copy)."""
+    m = ctx.model
+    for name in QUANTITY_DESCRIPTORS:
+        ci = m.cls(name)
+        ctx.need(ci is not None, name, 'descriptor class not found')
+        for meth, what in (('__get__', 'hands out'), ('__set__', 'stores')):
+            f = m.method(ci, meth)
+            ctx.need(f is not None, f'{name}.{meth}', 'not found')
+            construct = f'{name}.{meth}'
+            if meth == '__get__':
+                exprs = [r.value for r in ast.walk(f.node) if isinstance(r, ast.Return) and r.value is not None
+                         and '__dict__' in norm(r.value)]
+            else:
+                exprs = [st.value for st in ast.walk(f.node) if isinstance(st, ast.Assign)
+                         and isinstance(st.targets[0], ast.Subscript) and '__dict__' in norm(st.targets[0])]
+            ctx.need(exprs, construct, 'no access to instance.__dict__ found')
+
+            def is_copy(e):
+                return isinstance(e, ast.Call) and ((isinstance(e.func, ast.Attribute) and e.func.attr in ('copy', '__copy__', '__deepcopy__'))
+                                                    or (call_name(e) or '').split('.')[-1] in ('copy', 'deepcopy', 'Quantity', 'Angle'))
+            bare = [e for e in exprs if not is_copy(e)]
+            if bare:
+                ctx.bad(construct, 'by-reference',
+                        f'{name} {what} the Quantity object itself (`{norm(bare[0])[:60]}`): `region.attr *= -1` updates that object in '
+                        'place before the validator rejects the assignment, so a rejected operation has changed the region '
+                        '(and a caller\'s or a default Quantity stays shared with the region)', f.loc())
+            else:
+                ctx.ok(construct, f'{what} a copy')
+
+
 RULES = [
     RuleDef('R1', 'every parameter (and meta/visual) is a validating descriptor', r1, 23),
     RuleDef('R2', 'validate-then-store; delete refused; validators raise', r2, 12),
@@ -751,4 +796,5 @@ RULES = [
     RuleDef('R6b', 'multi-key metadata inserts are all-or-nothing', r6b, 3),
     RuleDef('R7', 'region lists only accept regions', r7, 4),
     RuleDef('R8', 'bounding-box / mask constructor guards', r8, 3),
+    RuleDef('R9', 'Quantity-valued attributes are handed out and stored by value (rejected augmented assignment)', r9, 4),
 ]
